@@ -15,7 +15,7 @@
    global phase with tolerance 1e-7 for pipelines with an unroller (that part is a TEST, labelled);
    measured registers are compared by name / logical qubits and by exact outcome distributions.
 """
-STATIC = ["C11/Props"]
+STATIC = ["C11/Props", "C11/ModelCheck", "C09/Props"]
 import itertools
 import json
 import random
@@ -403,7 +403,7 @@ def make_cases(tier, rng):
             n = g0.number_of_nodes()
             placers, routers = pipelines_for(devname, n, rng)
             for placer, router, natn in itertools.product(placers, routers, nat_names):
-                if tier == "quick" and rng.random() < 0.45:
+                if tier == "quick" and rng.random() < 0.1:
                     continue
                 g = R.label_variants(g0, rng, rng.choice(hows))
                 nodes = list(g.nodes())
@@ -742,6 +742,7 @@ def replay(run, data):
         return run.finish(rule="replay of one recorded case")
     info = run_pipeline(spec, timeout=60)
     bad = end_to_end(spec, info)
+    run.oblige("replay_executed", True, "replay")
     run.case(spec)
     run.sample({"spec": spec})
     for key, what, extra in bad:
